@@ -18,7 +18,7 @@ from vlib.common import CaseResult, rng_for
 
 ID = 'C12'
 LEVEL = 'exploration'
-RULE = ('chains of 2-8 configuration versions over watchers a,b,c,d produced by labelled edits: add / remove a '
+RULE = ('chains of 2-8 configuration versions over watchers a, b, Web, dB (mixed-case names) produced by labelled edits: add / remove a '
         'watcher section, change numprocesses (including back to an earlier value), change cmd or args, change a '
         'global [env] variable or an [env:NAME] variable, add / remove / modify a documented option '
         '(graceful_timeout, warmup_delay, priority, max_retry, stop_signal, respawn, singleton...) or a free-form '
@@ -30,7 +30,7 @@ ASSUMPTIONS = ['what a file means is taken from circus.config.get_config itself 
                'respawn=false is not generated: a numprocesses increase on such a watcher spawns nothing by '
                'documented design, which makes "same as a fresh start" ambiguous']
 BUDGET = {'quick': 240, 'thorough': 1500}
-NAMES = ['a', 'b', 'c', 'd']
+NAMES = ['a', 'b', 'Web', 'dB']
 DOC_OPTS = [('graceful_timeout', ['0.2', '0.5', '1']), ('warmup_delay', ['0', '1']), ('priority', ['0', '1', '5']),
             ('max_retry', ['3', '5']), ('stop_signal', ['TERM', 'INT', '10']),
             ('send_hup', ['true', 'false']), ('stop_children', ['true', 'false']), ('working_dir', ['/tmp', '/']),
@@ -66,7 +66,7 @@ def render(model):
 def initial(rnd):
     m = {'env': {}, 'watchers': {}, 'envs': {}, 'comments': []}
     for n in rnd.sample(NAMES, rnd.randint(1, 3)):
-        m['watchers'][n] = {'cmd': 'w_' + n, 'numprocesses': str(rnd.randint(1, 3)), 'graceful_timeout': '0.2'}
+        m['watchers'][n] = {'cmd': simhist.tag_of(n), 'numprocesses': str(rnd.randint(1, 3)), 'graceful_timeout': '0.2'}
     if rnd.random() < .4:
         m['env']['GLOBALV'] = 'g0'
     return m
@@ -88,7 +88,7 @@ def edit(rnd, m, history):
     sec = m['watchers'][n]
     if k == 'add-watcher':
         x = rnd.choice(absent)
-        m['watchers'][x] = {'cmd': 'w_' + x, 'numprocesses': str(rnd.randint(1, 3)), 'graceful_timeout': '0.2'}
+        m['watchers'][x] = {'cmd': simhist.tag_of(x), 'numprocesses': str(rnd.randint(1, 3)), 'graceful_timeout': '0.2'}
         return 'add-watcher'
     if k == 'remove-watcher':
         del m['watchers'][n]
@@ -107,7 +107,7 @@ def edit(rnd, m, history):
         sec['numprocesses'] = prev[-1]
         return 'numprocesses-revert'
     if k == 'cmd':
-        sec['cmd'] = 'w_%s' % n if sec['cmd'] != 'w_%s' % n else 'w_%s --v2' % n
+        sec['cmd'] = simhist.tag_of(n) if sec['cmd'] != simhist.tag_of(n) else simhist.tag_of(n) + ' --v2'
         return 'cmd'
     if k == 'args':
         if 'args' in sec and rnd.random() < .4:
